@@ -298,19 +298,20 @@ class RBFEvaluator(FuncEvaluator, XCEvalSerializable):
             assert isinstance(kernel, DiffRBF)
             scale = 1.0
         if isinstance(kernel, SubsetRBF):
-            if isinstance(kernel.indexes, slice):
-                i = kernel.indexes
-                start = i.start
+            indexes = kernel.indexes
+            if isinstance(indexes, slice):
+                i = indexes
+                start = i.start if i.start is not None else 0
                 step = i.step if i.step is not None else 1
-                stop = (
-                    i.stop
-                    if i.stop is not None
-                    else (len(kernel.length_scale) + i.start) // step
-                )
+                stop = start + len(kernel.length_scale) * step
                 indexes = [i for i in range(start, stop, step)]
             indexes = np.array(indexes, dtype=np.int32)
+            if np.shape(X1ctrl)[-1] > indexes.max():
+                # full-width control points: keep the columns the kernel acts on
+                X1ctrl = np.asarray(X1ctrl)[..., indexes]
         else:
             indexes = np.arange(len(kernel.length_scale), dtype=np.int32)
+        self._scatter = not np.array_equal(indexes, np.arange(len(indexes)))
         self._X1ctrl = np.ascontiguousarray(X1ctrl)
         self._alpha = np.ascontiguousarray(alpha * scale)
         self._exps = np.ascontiguousarray(0.5 / kernel.length_scale**2)
@@ -318,21 +319,25 @@ class RBFEvaluator(FuncEvaluator, XCEvalSerializable):
         self._indexes = np.ascontiguousarray(indexes)
 
     def __call__(self, X1, res=None, dres=None):
+        full_shape = X1.shape
         X1 = np.ascontiguousarray(X1[..., self._indexes])
         if res is None:
             res = np.zeros(X1.shape[0])
         elif res.shape != (X1.shape[-2],):
             raise ValueError
         if dres is None:
-            dres = np.zeros(X1.shape)
-        elif dres.shape != X1.shape:
+            dres = np.zeros(full_shape)
+        elif dres.shape != full_shape:
             raise ValueError
+        # gradient with respect to the selected columns, added to dres below
+        scatter = self._scatter or X1.shape != full_shape
+        dsub = np.zeros(X1.shape) if scatter else dres
         n = X1.shape[-2]
-        for arr in [res, dres, X1]:
+        for arr in [res, dsub, X1]:
             assert arr.flags.c_contiguous
         self._fn(
             res.ctypes.data_as(ctypes.c_void_p),
-            dres.ctypes.data_as(ctypes.c_void_p),
+            dsub.ctypes.data_as(ctypes.c_void_p),
             X1.ctypes.data_as(ctypes.c_void_p),
             self._X1ctrl.ctypes.data_as(ctypes.c_void_p),
             self._alpha.ctypes.data_as(ctypes.c_void_p),
@@ -341,6 +346,8 @@ class RBFEvaluator(FuncEvaluator, XCEvalSerializable):
             ctypes.c_int(self._nctrl),
             ctypes.c_int(self._nfeat),
         )
+        if scatter:
+            dres[..., self._indexes] += dsub
         return res, dres
 
 
